@@ -60,6 +60,13 @@ LINES_EXTRA = [
     ("arr-string", '["x"]'),
     ("arr-one-response", "[" + J + '"id":"in-array","result":{"t":"\u20ac"}}]'),
     ("arr-nested-empty", "[[ ]]"),
+    # well-formed messages with null-valued members: null is "absent" for optional members (the independent envelope
+    # validator says so), and unknown members do not matter
+    ("resp-error-null", J + '"id":21,"result":{"ok":true},"error":null}'),
+    ("req-params-null", J + '"id":"q-null","method":"ping","params":null}'),
+    ("notif-params-null", J + '"method":"notifications/nullparams","params":null}'),
+    ("resp-unknown-null", J + '"id":22,"result":{},"x-extra":null}'),
+    ("notif-unknown-null", J + '"method":"notifications/unk","x-extra":null,"params":{"k":null}}'),
 ]
 EXTRA_JUNK = ("two-msgs", "two-msgs-space", "msg+text", "msg+array", "notif+brace")
 LINES_SHORT_EXTRA = [
@@ -886,7 +893,8 @@ def run(tier: str, only=None) -> core.Result:
         "x {LF, CRLF}, each followed by a sentinel line; cuts = every single position, every pair on short streams, every "
         "pair with a cut inside a multi-byte character or CRLF on long ones (thorough: triples, byte-at-a-time); "
         "plus junk lines that start with a complete message (two messages on one line, message + text / array / brace) and "
-        "array lines ([1,2], [], [\"x\"], [response], [[ ]]) x {no version, 2025-03-26, 2025-06-18} at every cut of one-line "
+        "array lines ([1,2], [], [\"x\"], [response], [[ ]]) and well-formed messages with null members (response with "
+        "error:null, request / notification with params:null, null-valued unknown members) x {no version, 2025-03-26, 2025-06-18} at every cut of one-line "
         "streams and of two-line streams (quick: reduced neighbour set, every cut only without version on LF-terminated pairs of "
         "the new lines, otherwise uncut + cuts inside characters / CRLF); every pair of cuts "
         "on short junk-with-message-prefix lines; four reads on two-line streams whose first line starts with a 2-/3-/4-byte "
